@@ -9,7 +9,7 @@ ENGINE_CORPUS = {"name": "corpus", "path": "/verif/corpus/run.sh", "serves_prope
 # id -> (level category, technique, level text, level note, design ref)
 CHECKS = {
  "C10": ("exploration", "runtime reference-model monitor (compositional text model) + constructor x nil sweep",
-         "Every layer's Error() of generated trees (pairwise kind sweep + PRNG trees) is compared with an independent compositional model; annotation-only wrappers are checked for transparency (root cause, Is, As); every exported wrapper constructor is called with nil. Held = no divergence on the executions observed.",
+         "Every layer's Error() of generated trees (pairwise kind sweep + PRNG trees) is compared with an independent compositional model; annotation-only wrappers are checked for transparency (root cause, Is, As); every exported wrapper constructor is called with nil, on its plain and on 23 rich-argument paths (tagged context, error-typed format arguments, non-empty link, codes.OK, empty message ...). Held = no divergence on the executions observed.",
          "Trusts the harness text model and the stdlib/pkg-errors/os/net documented message formulas; says nothing about kinds or strings outside the generated families.", "§4 C10"),
 }
 CHECKS.update({
@@ -20,7 +20,7 @@ CHECKS.update({
          "For every (e, r) pair of a generated tree and its reference pool (own layers incl. hidden, sentinels, errnos, independent tree, near-equal perturbations) the Is answer before transfer is compared with the answer after 5-7 hop histories mixing knowing and unknowing processes, with r transferred, with both, and at an observer that does not know third-party types.",
          "Before-transfer answer is the oracle (tied to the documented equivalence by C08). Unknowing process = decoders for chosen keys removed during decode (verif hook). Pairs whose local match is due only to a foreign Is method are exempt when r is transferred, as the statement says.", "§4 C02"),
  "C04": ("exploration", "differential monitor over histories with unknowing intermediaries: text / type names / safe details at the unknowing process, byte-exact re-encoding, full observation record at the final knowing receiver vs direct hop",
-         "For every generated tree, every subset of its wire type keys (all 2^n for n<=6, sampled otherwise) is forgotten at an intermediary; monitors compare the text shown there with the origin, the bytes forwarded with the bytes received, and the complete observation record (text, shape, Is pool, annotations, %+v, per-layer details and stacks) of a later knowing receiver with that of a direct transfer. The hook-based simulation is cross-checked against hook-free wire renaming.",
+         "For every generated tree, every subset of its wire type keys (all 2^n for n<=6, sampled otherwise) is forgotten at an intermediary; monitors compare the text shown there with the origin, the bytes forwarded with the bytes received, and the complete observation record (text, shape, Is pool, annotations, %+v, per-layer details and stacks) of a later knowing receiver with that of a direct transfer; wrappers that override their cause's message also do so with the empty string. The hook-based simulation is cross-checked against hook-free wire renaming.",
          "Unknowing process = decoders removed during decode (verif hook). Two recorded findings (barrier markers, gRPC status description) are printed as KNOWN-FINDING.", "§4 C04"),
  "C08": ("exploration", "reference-model monitor: errors.Is/IsAny vs an independent implementation of the documented equivalence over model marks + algebraic monitors",
          "All (e, r) pairs from a generated tree, its layers, sentinels and systematically perturbed copies (message / type / domain / extra / missing layer, strict prefix and extension chains, leaf-or-wrapper types, non-comparable values, Mark with references of other chain lengths) are evaluated and compared with a reference implementation whose marks come from the model's hard-coded family table; reflexivity, monotonicity under 11 wrappers, IsAny = disjunction on random sub-pools and nil handling are asserted.",
@@ -37,37 +37,37 @@ CHECKS.update({
          "Redactable %v/%s/%+v renderings of generated trees over hostile strings must pass a per-line marker scanner at 5 stages (local, decoded, opaque, ...); for marker-free strings StripMarkers(redact.Sprintf) must equal fmt.Sprintf via Formattable byte for byte; %q/%x/%X must be refused as ‹%!verb(type)› and leak no unsafe token.",
          "For congruence the library's own plain rendering is the oracle (tied to the model by C09/C10).", "§4 C06"),
  "C07": ("exploration", "reference-model + invariant monitors on trees with forced hidden sub-trees (reachability, Is/IsAny/As/HasType/HasInterface/If, every accessor vs a visible-layers-only model; positive half on %+v and safe details)",
-         "Trees with barrier / secondary / error-argument / Mark nodes whose hidden sub-tree carries hints, details, domains, flags, codes, keys, links, sentinels and As-target types: hidden objects must be unreachable, contribute nothing to Is/IsAny/As/HasType/If and accessors (model over visible layers only), locally and after 2 hops; Handled keeps the text, WithMessage variants replace it; every token and type of the hidden error's own %+v appears in the hiding error's %+v; the hiding layer's safe details contain the hidden chain's safe details.",
+         "Trees with barrier / secondary / error-argument / Mark nodes whose hidden sub-tree carries hints, details, domains, flags, codes, keys, links, sentinels and As-target types: hidden objects must be unreachable (also through each layer's own Unwrap()/Cause() methods and the standard library's walk), contribute nothing to Is/IsAny/As/HasType/If and accessors (model over visible layers only), locally and after 2 hops; Handled keeps the text, WithMessage variants replace it; every token and type of the hidden error's own %+v appears in the hiding error's %+v; the hiding layer's safe details contain the hidden chain's safe details.",
          "Visible-layer model of harness/model; %+v visibility is token/type based.", "§4 C07"),
  "C09": ("exploration", "reference monitors on formatting (fmt on the Error() string as oracle for 550 verb/flag/width/precision specs; %+v entry parser vs the model's layer list, order, types, indentation and per-layer detail) + the repository's curated corpus re-rendered and diffed against vetted references",
          "Monitor A: for library-typed, decoded and Formattable-wrapped generated errors, every simple verb variant must equal fmt's rendering of the Error() string; unsupported verbs give %!verb(type); %#v is a Go-syntax dump; %+v starts with Error(), has exactly one entry per visible layer in the documented order and indentation, an 'Error types' line naming every layer's Go type, and each library wrapper's own detail in its entry. Monitor B: 13 corpus files (484 leaf x wrapper cases, 87k lines) re-rendered with the repository's own driver on a scratch copy and compared line by line modulo toolchain closure naming.",
          "fmt on the Error() string is the oracle; '+' with s/q/x/X is not claimed; multi-line messages compare first lines only. Corpus references are the pinned commit's vetted renderings.", "§4 C09"),
  "C11": ("exploration", "differential monitor over recorded hops: every annotation accessor, per-layer safe details, every stack frame, one-line source before vs after hops 1..k; foreign-platform errno history",
-         "All annotation accessors, per-layer safe details (barrier/secondary layers excluded), every frame of every reportable stack and the one-line source of generated trees are compared before the first hop and after each of 3 (quick) / 6 (thorough) hops; trees with an errno are also sent with a foreign ErrnoPayload.arch.",
+         "All annotation accessors, per-layer safe details (barrier/secondary layers excluded), every frame of every reportable stack and the one-line source of generated trees are compared before the first hop and after each of 3 (quick) / 6 (thorough) hops; trees with an errno are also sent with a foreign ErrnoPayload.arch. The generator draws boundary argument values too (Safe / nil / int tag values, detail-only issue links, the zero HTTP / gRPC code).",
          "Origin observation is the oracle (tied to the accessor model by C19, to call sites by C16).", "§4 C11"),
  "C12": ("exploration", "conservation monitor: tokens on every declared-safe input, type names and first stack frames must be found in the Sentry report or GetAllSafeDetails at 4 stages",
-         "Every string the library declares PII-free (constant messages and formats, Safe() args, telemetry keys, domains, issue links, tag keys) carries a token that must be present in the Sentry event/extras or GetAllSafeDetails, locally, after 1-2 hops and after unknowing->knowing, also behind barriers and in secondary errors; every visible layer's type name must be in the 'error types' extra and every capturing layer's first frame in the exceptions (visible) or safe details (hidden).",
+         "Every string the library declares PII-free (constant messages and formats, Safe() args, telemetry keys, domains, issue links, tag keys) carries a token that must be present in the Sentry event/extras or GetAllSafeDetails, locally, after 1-2 hops and after unknowing->knowing, also behind barriers and in secondary errors; every stage is observed twice (reporting must not consume what it reports); every visible layer's type name must be in the 'error types' extra and every capturing layer's first frame in the exceptions (visible) or safe details (hidden).",
          "Declared-safe set of the model; the inside of a Mark reference carries no obligation.", "§4 C12"),
  "C13": ("exploration", "reference-model + differential monitors on trees with forced nested multi-cause nodes (Is/IsAny = self or some branch; As first match by object identity; Unwrap family; Join nil handling; branches across knowing/unknowing hops; %+v entries)",
          "For every multi-cause layer of generated trees (5 multi-cause kinds, nested, under wrappers, as barrier payload): Is/IsAny against a perturbed reference pool must equal self-match or a branch match; As must assign the first match in branch order (object identity); Unwrap/UnwrapOnce nil, Cause/UnwrapAll itself; Join drops nils; branch count/order/text/annotations survive hop1, hop2, unknowing (arity/order) and unknowing->knowing; %+v has an entry per layer.",
          "Marks from the model table; origin observation is the oracle across hops.", "§4 C13"),
  "C14": ("exploration", "differential monitor against Go's errors package and pkg/errors on the same live objects",
-         "std Is implies ours on every (tree, reference) pair; As on 19 target types (pointer, value, interface): std match implies ours with the same value, equality where the std walker can reach the whole tree; Unwrap equals std Unwrap on types with Unwrap() error and is nil for multi-cause; Cause/UnwrapAll equal pkg/errors.Cause on Cause() chains; every layer the std walker can reach is found by std Is.",
+         "std Is implies ours on every (tree, reference) pair; As on 19 target types (pointer, value, interface) plus types with their own As method (a leaf that converts itself, a wrapper that declines every target but one): std match implies ours with the same value, equality where the std walker can reach the whole tree; Unwrap equals std Unwrap on types with Unwrap() error and is nil for multi-cause; Cause/UnwrapAll equal pkg/errors.Cause on Cause() chains; every layer the std walker can reach is found by std Is.",
          "Go's errors and pkg/errors v0.9.1 are the oracles.", "§4 C14"),
  "C15": ("exploration", "structural trace monitor on BuildSentryReport against the model's layer list and per-layer stacks",
-         "For generated trees (local, decoded once/twice): message = [file:line: ] + redacted %+v + composition header + exactly one line per layer; exceptions = max(1, stack-bearing layers), exception i carries the i-th stack-bearing layer's frames outermost first; module = GetDomain; 'error types' = one line per layer with type and mark, innermost first, compared with the model's table; nil gives nothing.",
+         "For generated trees (local, decoded once/twice): message = [file:line: ] (predicted from the innermost frame of the innermost stack-bearing layer, independently of GetOneLineSource) + redacted %+v + composition header + exactly one line per layer; exceptions = max(1, stack-bearing layers), exception i carries the i-th stack-bearing layer's frames outermost first; module = GetDomain; 'error types' = one line per layer with type and mark, innermost first, compared with the model's table; nil gives nothing.",
          "Layer count/order/type names/marks from the model; frames from per-layer GetReportableStackTrace.", "§4 C15"),
  "C16": ("fault_enumeration", "call-site bookkeeping monitor: exhaustive table of stack-capturing / domain-computing functions x depth x call path; expected frame = the harness's own runtime.Caller record",
-         "42 exported functions (root, errutil, withstack, domains) x 2 defining packages x 7 call paths through non-inlinable helpers alternating between two packages x depth 0..3: the first frame of the captured stack, GetOneLineSource and the package domain must denote the d-th caller recorded by the harness on the same source line. Functions found in the repository's source but missing from the table are listed as unexercised.",
+         "64 table entries (42 exported functions of root, errutil, withstack, domains + 22 argument-value variants: empty message/format, error-typed arguments, %w, nil arguments) x 2 defining packages x 7 call paths through non-inlinable helpers alternating between two packages x depth 0..3: the first frame of the captured stack, GetOneLineSource and the package domain must denote the d-th caller recorded by the harness on the same source line; GetOneLineSource must stay the same under another stack and under foreign Cause-only / Unwrap-only wrappers, and after the caller scribbles on the slice StackTrace() returned. Functions found in the repository's source but missing from the table are listed as unexercised.",
          "The harness's runtime.Caller bookkeeping is the oracle; grpc/status.Error/Errorf are outside the enumerated API.", "§4 C16"),
  "C17": ("exploration", "configuration enumeration with runtime monitors on wire family names, decoded Go types and Is across every (sender, intermediary, receiver) triple of code versions",
-         "12 code versions (never knew, original, A>B, A>C, A>B>C in both registration orders, A>B>C>D in six orders; leaf value type and wrapper pointer type) installed through the public registration API around every step; every (sender, intermediary-or-none, receiver) triple is executed; plus scenario 5 at a process that never knew the type, registration-order independence of GetTypeKey and rejection of double registration. Enumerated completely.",
+         "12 code versions (never knew, original, A>B, A>C, A>B>C in both registration orders, A>B>C>D in six orders; a leaf value type with a custom leaf encoder registered in the documented order, and a wrapper pointer type) installed through the public registration API around every step; every (sender, intermediary-or-none, receiver) triple is executed; plus scenario 5 at a process that never knew the type, registration-order independence of GetTypeKey and rejection of double registration. Enumerated completely.",
          "A code version is simulated in-process: empty migration registry + that version's RegisterTypeMigration calls + its decoders.", "§4 C17"),
  "C18": ("exploration", "Go race detector over a shared-error stress workload (verdict = DATA RACE blocks in the GORACE logs) + determinism monitor against sequential reference results",
          "Harness and library are built with -race; per case one shared error (local or decoded) is hit by 16 (quick) / 48 (thorough) goroutines released together, each running 3 / 6 rounds of 14 observer operations; the shared value is kept cold (reference computed on a twin) in its own order with no synchronisation in the measured region; every result is compared with the sequential reference; overlap of operations is measured from timestamps and a case without overlap does not count as non-trivial.",
          "The race detector only sees the executions produced.", "§4 C18"),
  "C19": ("exploration", "reference-model monitor on every aggregation accessor vs an independent model over the visible single-cause chain",
-         "Chains of 2-9 wrappers (three quarters annotation wrappers) over small trees with strings from a 9-word pool with repeats, empties and a string equal to a standard hint: GetAllHints, FlattenHints, GetAllDetails, FlattenDetails, GetAllIssueLinks, GetTelemetryKeys, GetDomain, GetContextTags, six Has/Is flags and HTTP/gRPC codes must equal the model.",
+         "Chains of 2-9 wrappers (three quarters annotation wrappers) over small trees with strings from a 9-word pool with repeats, empties and a string equal to a standard hint: GetAllHints, FlattenHints, GetAllDetails, FlattenDetails, GetAllIssueLinks, GetTelemetryKeys, GetDomain, GetContextTags, six Has/Is flags and HTTP/gRPC codes must equal the model, on the local error and on the error decoded at a knowing process.",
          "Accessor model of harness/model.", "§4 C19"),
  "C20": ("exploration", "differential monitor at the client boundary of a real in-memory gRPC server with the repository's interceptors vs direct EncodeError/DecodeError transfer",
          "Generated trees are returned by the Echoer handler behind UnaryServerInterceptor; the error received through UnaryClientInterceptor must have the same observation record (text, shape, annotations, per-layer details and stacks, %+v) and Is answers as a direct hop; a raw client must see the code attached with WrapWithGrpcCode (Unknown otherwise) and the error text; status errors and nil pass through unchanged.",
